@@ -22,12 +22,18 @@
 (*           names sort before and after the submodule's name (every       *)
 (*           non-empty subset of four symbols): each name must resolve in  *)
 (*           ITS module, whatever else the calling package binds           *)
+(*  site     the kind of place the call is written in: for every kind a    *)
+(*           Python function that the whole program calls from that kind   *)
+(*           of place ONLY (plain function, closure, method, package-level *)
+(*           initialiser, init function, instance of a generic function,   *)
+(*           method of an instance of a generic type, generic function of  *)
+(*           another package instantiated here)                            *)
 (*                                                                         *)
 (* Nothing here says how a call is lowered: Call (PyBridge) is the law.    *)
 (***************************************************************************)
 EXTENDS PyBridge, Json
 
-CONSTANT Family      \* "dual" | "govar" | "hypot" | "funcref" | "colookup" | "all"
+CONSTANT Family      \* "dual" | "govar" | "hypot" | "funcref" | "colookup" | "site" | "all"
 
 \* position i of every call carries the i-th of four different objects: a dropped, repeated or displaced argument shows
 ArgSeq == << GoInt("i64", [neg |-> FALSE, m |-> Small(7)]), GoString(<<97>>), GoFloat("f64", "half"),
@@ -63,10 +69,14 @@ Syms == << Sym("vmod", "who", Lookup("vmod", "who")), Sym("vpk", "alpha", VpkSpa
 CoLookupCases == {[fam |-> "colookup", sel |-> s] : s \in (SUBSET DOMAIN Syms) \ {{}}}
 Selected(c) == SelectSeq(Syms, LAMBDA y : \E i \in c.sel : Syms[i] = y)
 
+SiteKinds == {"func", "closure", "method", "pkgvar", "initfn", "generic", "genmethod", "xgeneric"}
+SiteCases == {[fam |-> "site", site |-> k] : k \in SiteKinds}
+
 \* the calls a case makes, in program order
 Calls(c) ==
   CASE c.fam = "dual"    -> << CallT(Args(c.first)), CallT(Args(c.second)) >>
     [] c.fam = "govar"   -> << CallT(Args(c.fixed + c.nvar)) >>
+    [] c.fam = "site"    -> << CallT(Args(1)) >>        \* where a call is written changes nothing about what it delivers
     [] c.fam = "funcref" -> << CallT([i \in 1..c.n |-> IF i = c.pos THEN c.ref ELSE ArgSeq[i]]) >>
     [] OTHER             -> << >>
 
@@ -81,7 +91,8 @@ Init == CASE Family = "dual"    -> case \in DualCases
           [] Family = "hypot"   -> case \in HypotCases
           [] Family = "funcref" -> case \in RefSel
           [] Family = "colookup" -> case \in CoLookupCases
-          [] Family = "all"     -> case \in DualCases \cup GoVarCases \cup HypotCases \cup RefSel \cup CoLookupCases
+          [] Family = "site"    -> case \in SiteCases
+          [] Family = "all"     -> case \in DualCases \cup GoVarCases \cup HypotCases \cup RefSel \cup CoLookupCases \cup SiteCases
 Next == UNCHANGED case
 Spec == Init /\ [][Next]_case
 
@@ -106,6 +117,7 @@ Emit ==
                                               calls |-> Calls(case)]))
     [] case.fam = "colookup" -> PrintT(ToJson([fam |-> "colookup", sel |-> SelectSeq(<<1, 2, 3, 4>>, LAMBDA i : i \in case.sel),
                                                syms |-> Selected(case)]))
+    [] case.fam = "site"    -> PrintT(ToJson([fam |-> "site", site |-> case.site, calls |-> Calls(case)]))
     [] case.fam = "hypot"   -> PrintT(ToJson([fam |-> "hypot", coords |-> case.coords,
                                               ret |-> [t |-> "float", whole |-> Hypot(case.coords)]]))
 =============================================================================
